@@ -44,6 +44,13 @@ CHECKS = {
             "through wbprobe vs the extracted model, bit-for-bit, the kd node array taken from the implementation and checked "
             "against kd_inv.",
             "proof over Reals of kd search / winding number / great circle / Bezier identities + bit-exact kernel correspondence + brute-force oracles", "4 C19"),
+    "C11": ("Theorems (Properties_C11.v, over exact reals): the interpolated depth is the barycentric combination of the nodal "
+            "values; bounded by the smallest/largest nodal value inside a triangle; nodal at the vertices; affine data are "
+            "reproduced by every non-degenerate triangle (whatever triangulation); merging a listed point sets its value and "
+            "keeps all others; corner override is REFUTED for points with a zero coordinate (known finding D8, kept with a "
+            "kernel-checked witness). Tie: Surface::local_value on the implementation's own triangle list / kd array vs the "
+            "model bit-for-bit, merged node set vs the triangulation's vertex set. Known findings D8, D19 are reported as such.",
+            "proof over Reals of barycentric interpolation + merge lemmas + bit-exact correspondence with Delaunay/kd data from the implementation", "4 C11"),
 }
 
 NOT_YET = {
